@@ -35,6 +35,24 @@ Theorem C20_load_precedence :
         lookup cfg (e_key e) = Some (e_default e)).
 Proof. exact load_precedence. Qed.
 
+(* pointwise: the effective value of a key depends only on that key's variable, that key's file entry and
+   that key's default - never on the value of another key *)
+Theorem C20_resolve_pointwise :
+  forall (K V : Type) (env1 env2 file1 file2 : K -> option V) (d1 d2 : K -> V) (k : K),
+    env1 k = env2 k -> file1 k = file2 k -> d1 k = d2 k ->
+    resolve env1 file1 d1 k = resolve env2 file2 d2 k.
+Proof. exact resolve_pointwise. Qed.
+
+Theorem C20_load_pointwise :
+  forall envf tbl penv1 filel1 penv2 filel2 cfg1 cfg2 e,
+    NoDup (map e_key tbl) -> In e tbl ->
+    load_with envf tbl penv1 filel1 = Some cfg1 ->
+    load_with envf tbl penv2 filel2 = Some cfg2 ->
+    envf penv1 (e_key e) = envf penv2 (e_key e) ->
+    lookup filel1 (e_key e) = lookup filel2 (e_key e) ->
+    lookup cfg1 (e_key e) = lookup cfg2 (e_key e).
+Proof. exact load_pointwise. Qed.
+
 (* keys that are not overridden keep their defaults *)
 Theorem C20_untouched_keys_keep_default :
   forall tbl penv filel cfg e,
@@ -149,6 +167,8 @@ Proof. exact db_okb_iff. Qed.
 
 Print Assumptions C20_resolve_precedence.
 Print Assumptions C20_load_precedence.
+Print Assumptions C20_resolve_pointwise.
+Print Assumptions C20_load_pointwise.
 Print Assumptions C20_untouched_keys_keep_default.
 Print Assumptions C20_single_env_override.
 Print Assumptions C20_selected_file_is_read.
